@@ -148,7 +148,18 @@ impl fmt::Display for KNumber {
 
 impl Hash for KNumber {
     fn hash<H: Hasher>(&self, state: &mut H) {
-        state.write_u64(self.to_bits())
+        // Numbers that compare as equal need to produce the same hash,
+        // so floats with integral values are hashed as integers (e.g. `1.0` and `1`).
+        match self {
+            Self::F64(n)
+                if n.fract() == 0.0
+                    && *n >= -9223372036854775808.0
+                    && *n < 9223372036854775808.0 =>
+            {
+                state.write_u64(*n as i64 as u64)
+            }
+            _ => state.write_u64(self.to_bits()),
+        }
     }
 }
 
